@@ -39,12 +39,15 @@
 //     (C12/C13 territory); a patch the manifest writer refuses to apply is skipped.
 //   - requirements written with one shared Maven property are one textual change: for an update u of such a
 //     requirement, v0 is taken from the manifest without u AND without the updates of the packages sharing the property.
+//   - a Maven package required more than once by the manifest (jar + classifier/type variant) has no single resolved
+//     version: each update is judged against its own requirement (plain version = itself, range = highest matching
+//     registry version), before and after.
 //   - IgnoreDev of Update is not exercised.
 //
 // Cause keys: <strategy>:updates-none-package, :downgrade, :no-upward-move, :exceeds-level,
 // :none-requirement-changed, :hang, :panic:<site>; pom:shared-property-collateral-change;
 // Maven Update additionally maven-update:downgrade-when-current-missing, maven-update:nil-newreq,
-// maven-update:nil-current.
+// maven-update:nil-current; npm-relax:prerelease-step-relaxed-to-caret.
 package main
 
 import (
@@ -59,6 +62,7 @@ import (
 	"sync/atomic"
 	"time"
 
+	"deps.dev/util/resolve/dep"
 	"github.com/google/osv-scalibr/guidedremediation"
 	"github.com/google/osv-scalibr/guidedremediation/options"
 	"github.com/google/osv-scalibr/guidedremediation/result"
@@ -168,10 +172,15 @@ func checkUpdates(st string, c *u.Case, dir string, base []byte, ups []result.Pa
 		}
 	}
 	rFull, err := c.ResolveBytes(filepath.Join(dir, "full"), full)
+	if rFull == nil {
+		out.dc("patched-manifest-unreadable")
+		out.logf("%s: patched manifest %v cannot be read: %v", kind, ups, err)
+		return
+	}
 	if err != nil {
+		// only updates of a package that is required more than once can still be judged (per requirement)
 		out.dc("patched-manifest-unresolvable")
 		out.logf("%s: patched manifest %v does not resolve: %v", kind, ups, err)
-		return
 	}
 	for i, up := range ups {
 		out.updates++
@@ -188,14 +197,40 @@ func checkUpdates(st string, c *u.Case, dir string, base []byte, ups []result.Pa
 		if err != nil {
 			out.dc("partial-manifest-unresolvable") // v0 can still be a Maven soft literal
 		}
-		v0, n0 := u.VersionOf(rPart.Graph, up.Name)
+		var v0, v1 string
+		var n0, n1 int
 		missing := false
-		if n0 == 0 {
-			if lit, ok := softLiteral(c, rPart, up.Name); ok {
-				v0, n0, missing = lit, 1, true
+		if c.Eco == u.Maven && u.CountDirect(rFull.Manifest, up.Name) >= 2 {
+			// The package is required more than once (jar + classifier/type variants): the graph has no single
+			// version for it, so each update is judged against ITS OWN requirement: the version that requirement
+			// denotes taken alone (plain version = itself, range = highest matching registry version), before/after.
+			cl, _ := up.Type.GetAttr(dep.MavenClassifier)
+			at, _ := up.Type.GetAttr(dep.MavenArtifactType)
+			if q, n := u.RequirementOf(rPart.Manifest, up.Name, cl, at); n == 1 {
+				if v, ok := c.Denoted(up.Name, q); ok {
+					v0, n0 = v, 1
+					if reg, _ := c.Denoted(up.Name, "["+v+"]"); reg != v {
+						missing = true
+					}
+				}
 			}
+			if q, n := u.RequirementOf(rFull.Manifest, up.Name, cl, at); n == 1 {
+				if v, ok := c.Denoted(up.Name, q); ok {
+					v1, n1 = v, 1
+				}
+			}
+		} else {
+			if rFull.Graph == nil {
+				continue
+			}
+			v0, n0 = u.VersionOf(rPart.Graph, up.Name)
+			if n0 == 0 {
+				if lit, ok := softLiteral(c, rPart, up.Name); ok {
+					v0, n0, missing = lit, 1, true
+				}
+			}
+			v1, n1 = u.VersionOf(rFull.Graph, up.Name)
 		}
-		v1, n1 := u.VersionOf(rFull.Graph, up.Name)
 		out.logf("%s: %s %q->%q: resolves %q (n=%d, softLiteral=%v) without the update, %q (n=%d) with it; level=%s", kind, up.Name, up.VersionFrom, up.VersionTo, v0, n0, missing, v1, n1, levelName[c.Level(up.Name)])
 		if n0 != 1 {
 			out.dc("base-version-undefined")
@@ -224,7 +259,12 @@ func checkUpdates(st string, c *u.Case, dir string, base []byte, ups []result.Pa
 			out.add(st+":no-upward-move", "%s", desc)
 		default:
 			if lvl < 3 && u.DiffLevel(p0, p1) < lvl {
-				out.add(st+":exceeds-level", "%s", desc)
+				key := st + ":exceeds-level"
+				if st == stRelax && p0.Pre >= 0 && strings.HasPrefix(up.VersionTo, "^") {
+					// leaving a pre-release is a step below "patch", yet the relaxer writes a caret range
+					key = "npm-relax:prerelease-step-relaxed-to-caret"
+				}
+				out.add(key, "%s", desc)
 			}
 		}
 	}
@@ -464,7 +504,7 @@ func main() {
 	}
 
 	dcTotals := map[string]*atomic.Int64{}
-	for _, k := range []string{"writer-refused-patch", "patched-manifest-unresolvable", "writer-refused-partial-patch", "partial-manifest-unresolvable", "partial-manifest-unreadable", "base-version-undefined", "new-version-undefined", "version-outside-reference-order", "manifest-unreadable", "manifest-parse-error", "manifest-resolve-error", "compute-patches-error", "fixvulns-error", "update-error"} {
+	for _, k := range []string{"writer-refused-patch", "patched-manifest-unresolvable", "writer-refused-partial-patch", "partial-manifest-unresolvable", "partial-manifest-unreadable", "patched-manifest-unreadable", "base-version-undefined", "new-version-undefined", "version-outside-reference-order", "manifest-unreadable", "manifest-parse-error", "manifest-resolve-error", "compute-patches-error", "fixvulns-error", "update-error"} {
 		dcTotals[k] = &atomic.Int64{}
 	}
 	perStrategy := map[string]map[string]int64{}
@@ -554,9 +594,15 @@ func main() {
 
 	// simplest first across strategies: Update, then shape by shape override and relax
 	runAll(stUpdate, func(emit func(*u.Case)) { b.GenUpdate(emit) })
-	for _, sh := range u.FixShapes {
+	runAll(stUpdate, func(emit func(*u.Case)) { b.GenUpdateDup(emit) })
+	for i, sh := range u.FixShapes {
 		runAll(stOverride, func(emit func(*u.Case)) { b.GenFixShape(u.Maven, sh, emit) })
 		runAll(stRelax, func(emit func(*u.Case)) { b.GenFixShape(u.NPM, sh, emit) })
+		if i == 0 {
+			// after solo: the same shape over the ladder with interleaved pre-releases
+			runAll(stOverride, func(emit func(*u.Case)) { b.GenPreShape(u.Maven, emit) })
+			runAll(stRelax, func(emit func(*u.Case)) { b.GenPreShape(u.NPM, emit) })
+		}
 	}
 
 	dc := map[string]int64{}
@@ -572,7 +618,7 @@ func main() {
 	r.Assume("the in-memory deps.dev LocalClient and the npm/Maven resolvers of deps.dev/util/resolve are the resolution semantics (the same ones the repository's own tests use)")
 	r.Assume("vulnerability matching uses the repository's IsAffected (decided separately by C18)")
 	rule := "For every tuple (universe, manifest, vulnerability set, upgrade config) of the bounded product below, for npm/relax and Maven/override (all candidate patches of ComputePatches and the patches FixVulns applies) and Maven/Update: every PackageUpdate u of a patch P has level(u.Name) != none; with v0 = version u.Name resolves to in manifest+(P-u) and v1 = in manifest+P (real writer, reader and resolver), v1 > v0 in the reference order and the most significant differing component of v0->v1 is allowed by the level (major: any, minor: minor/patch, patch: patch); direct requirements of `none` packages are textually unchanged in the written manifest; no tuple panics or runs longer than 120 s. " +
-		"Bound (" + r.Tier + "): " + b.Describe() + "; shapes " + strings.Join(u.FixShapes, ", ") + " (FixVulns; sharedprop Maven only) and update-solo, update-pair (Update) as defined in verif/universe/gen.go, each the full product of its lists, enumerated simplest first."
+		"Bound (" + r.Tier + "): " + b.Describe() + "; shapes " + strings.Join(u.FixShapes, ", ") + " (FixVulns; sharedprop Maven only) plus prerelease (GenPreShape: solo over the ladder " + strings.Join(u.LadderPre, " ") + " with interleaved pre-releases) and update-solo, update-pair, update-dup (Update; update-dup = one package required twice, jar a1 and tests/test-jar a2, a1,a2 over the ladder) as defined in verif/universe/gen.go, each the full product of its lists, enumerated simplest first."
 	os.RemoveAll(scratchRoot)
 	r.Finish(rule, exhaustive)
 }
